@@ -47,7 +47,8 @@ UNITS = [
     unitA('enqueue', 'tp_enqueue'),
     unitA('is_stopped', 'tp_is_stopped'),
     unitA('any_enqueued', 'tp_any_enqueued'),
-    unitA('worker', 'tp_worker', names={'cv_wait_pred': F['cv_wait_pred']}, loop_contracts=True,
+    # perms: every plain load/store of thread_pool::_exit carries the obligation "not used after the pool was destroyed" (CV_PERM_TP_EXIT, lib/model_tpool2.c)
+    unitA('worker', 'tp_worker', names={'cv_wait_pred': F['cv_wait_pred']}, loop_contracts=True, perms={'cocls::thread_pool._exit': 'CV_PERM_TP_EXIT'},
           replay=dict(src='c11_dtor_under_lock.cpp', mode='dtor_under_lock', flags=['-pthread', '-g'], timeout=60)),
     unitA('dtor', 'tp_dtor', names_opt={'tp_stop_abs': F['tp_stop']}, boundary=[F['tp_stop']],
           replay=dict(src='c11_stop_concurrent.cpp', mode='dtor', flags=['-pthread', '-g'], timeout=60)),
@@ -150,7 +151,10 @@ META = dict(
         'Closures are linear ghost ids; one arbitrary closure and one arbitrary worker-list index are tracked exactly (ghost-index idiom), totals are counted. '
         'Proved: enqueue pushes iff the exit flag is clear at the instant the lock is taken, wakes a worker, and leaves a rejected closure untouched with '
         'its owner; every closure a worker dequeues (under the lock) is invoked exactly once with the lock released and the thread-local current-pool '
-        'pointer is tested before the pool is touched again (the job may have stopped and destroyed it); closures are invoked only by a thread marked as worker of this pool; a worker leaves only when it saw the exit flag '
+        'pointer is tested before the pool is touched again - AFTER THE EXECUTED CLOSURE HAS BEEN DESTROYED: both the body of the job and the destruction of its closure '
+        '(destructors of the captures, e.g. the last shared_ptr owner of the pool) run user code on the worker that may stop and destroy the pool, and every later use of '
+        'the pool mutex (each lock / unlock, i.e. also lk.lock()), the queue, the worker list, the condition variable and the exit flag (permission instrumentation of every plain '
+        'access of thread_pool::_exit in unit worker) carries the obligation "used after the pool was destroyed"; closures are invoked only by a thread marked as worker of this pool; a worker leaves only when it saw the exit flag '
         'under the lock or its own job stopped the pool; stop() sets the flag, notifies all and swaps BOTH containers out inside one critical section, '
         'destroys every swapped-out closure un-run exactly once outside the lock AND BEFORE THE FIRST JOIN (obligation C11-JOIN-ORDER), joins every other worker exactly once and detaches exactly itself '
         '(resetting the current-pool pointer) - for worker lists of 0..2^20 threads; ~thread_pool stops exactly once and finds nothing left; the '
@@ -180,7 +184,10 @@ META = dict(
         'stays pending forever); native reproduction replay/c11_stopped_pool.cpp. NEW FINDING - worker() destroys the executed closure after re-locking the '
         'pool mutex (obligation "a closure is destroyed while the pool mutex is held" in unit worker): a destructor of captured user state that touches the '
         'pool self-deadlocks the worker; native reproduction replay/c11_dtor_under_lock.cpp, proposed patch specs/C11/fix_worker_closure_dtor_under_lock.diff '
-        '(unit verifies completely with it). OBSERVATION (property C03): current_awaiter::await_ready reads _exit without the pool mutex (IR: plain '
+        '(unit verifies completely with it) - repaired on the pinned tree by /repo commit 06a2bbd (the closure now dies inside its own block, lock released).  Seeded change C11-3 (the `_current == nullptr` test moved '
+        'before the destruction of the executed closure) is decided in unit worker by the obligations "the pool mutex is used after the pool was destroyed" (lk.lock() reaches tp_on_lock) '
+        'and the loop invariant (current-pool pointer == the pool whenever the worker owns the lock): the destructor primitive of the closure cell lets the DESTRUCTION of the executed job stop / destroy the pool '
+        '(reachability sentinels "worker left because the destruction of its executed job destroyed / stopped the pool"). OBSERVATION (property C03): current_awaiter::await_ready reads _exit without the pool mutex (IR: plain '
         '`load i8, i8* %_exit`, no call in the function); the lock-discipline clause is opt-in (C11_LOCKCHECK_AWAIT_READY=1, then fails; patch '
         'specs/C11/fix_await_ready_lock.diff makes it pass). is_stopped() / any_enqueued() read under the lock (proved). '
         'NOT COVERED: LIVENESS - "terminate and join without deadlock for every timing" is not provable in this family; only the safety side is proved '
@@ -200,7 +207,7 @@ META = dict(
         'assumed contracts on dependencies (lib/model_tpool2.c): std::queue<function<void()>> as an abstract multiset of closure ids with a length (two objects: the pool member and the local of stop()); '
         'std::vector<std::thread> by its representation pointers over a harness-allocated element array; std::thread::join / detach / get_id / constructor, pthread_self, hardware_concurrency; '
         'std::condition_variable wait (releases, lets others act, re-acquires; may wake spuriously) / notify (counted); iterator dereference re-anchored on the element array',
-        'closure cell model of cocls::function<void()> at the pool level (move = the id travels, call = obligations + "the job may stop / destroy the pool", destructor = the closure dies); the real machinery is verified at the closure level',
+        'closure cell model of cocls::function<void()> at the pool level (move = the id travels, call = obligations + "the job may stop / destroy the pool", destructor = the closure dies + "the destruction of the captures may stop / destroy the pool" alike: current-pool pointer reset, pool dead); the real machinery is verified at the closure level',
         'std::mutex via pthread primitives with lock-discipline obligations and rely / snapshot hooks (lib/model_mutex.c + tp_on_lock / tp_on_unlock in lib/model_tpool2.c)',
         'closure level: thread_pool::enqueue as accept / reject input, coro_queue::resume as recording primitive whose resumed coroutine evaluates await_resume() and frees its awaiter, '
         'promise<int> as one word with recorded outcome (value / exception / dropped), async<int>::start as "claims the promise, hands back the coroutine", observation hooks of the driver\'s callables (drivers/c11_pool.cpp)',
@@ -209,7 +216,7 @@ META = dict(
     assumptions=[
         'rely/guarantee soundness: each function conforms to the rely for every behaviour of the others; that every interleaving of critical sections then satisfies the pool invariant is the standard argument (DESIGN 3.5), not machine-checked',
         'closure ids are unique (cocls::function is move-only: a closure is in exactly one place); ghost counters are mathematical (never wrap)',
-        'user jobs do not throw out of a plain closure (run(fn) catches; co_await / resume closures call noexcept paths); a job may stop and destroy the pool it runs on; in unit worker nothing else destroys a pool while its workers run - the matching obligation on ~thread_pool (no worker left that can touch the pool) is the OPEN finding C11-OPEN2',
+        'user jobs do not throw out of a plain closure (run(fn) catches; co_await / resume closures call noexcept paths); a job may stop and destroy the pool it runs on, from its body or from the destructor of its closure; in unit worker nothing else destroys a pool while its workers run - the matching obligation on ~thread_pool (no worker left that can touch the pool) is the OPEN finding C11-OPEN2',
         'the worker list holds joinable threads while the pool runs (established by the constructor unit, preserved because only stop() touches the list)',
         'liveness is out of reach: join() returns, notified waiters wake, the mutex is fair - assumed, not proved',
         'closure-level scenarios: one submission per scenario (resume(suspend_point): up to 4); what the pool does with an accepted closure is exactly one of run / destroy-un-run, exactly once (proved at the pool level by units worker and stop)',
